@@ -45,6 +45,14 @@ type Pointer struct {
 
 func (p Pointer) IsNil() bool { return p.L == nil && p.Arr == nil }
 
+// SymPtr is the content of a pointer-valued shared cell in interleaving mode: a 16-bit term
+// holding the allocation-order id of the target (0 = nil). It is resolved to a concrete
+// Pointer by a case split over the cell's domain when the cell is loaded.
+type SymPtr struct {
+	T    *T
+	Cell int
+}
+
 type Slice struct {
 	Arr           *ArrayLoc
 	Off, Len, Cap *T // 64-bit terms
@@ -247,6 +255,9 @@ func (x *X) newArray(elem types.Type, n int) *ArrayLoc {
 func (x *X) loadLoc(l Loc) Value {
 	switch l := l.(type) {
 	case *ScalarLoc:
+		if sp, ok := l.V.(SymPtr); ok {
+			l.V = x.resolveSymPtr(sp)
+		}
 		return l.V
 	case *StructLoc:
 		sv := StructVal{F: make([]Value, len(l.F))}
